@@ -143,7 +143,7 @@ Proof. unfold ensure_created. now intros ->. Qed.
 (* 3. the storage primitives                                           *)
 (* ------------------------------------------------------------------ *)
 
-Definition entry_of (d : desc) (bytes : str) : entry := mkEntry (d_mt d) (d_dg d) (d_sz d) bytes.
+Definition entry_of (d : desc) (bytes : str) : entry := mkEntry (d_mt d) (d_dg d) (d_sz d) bytes false.
 
 Definition from_push (evs : list event) (e : entry) : Prop :=
   exists r d bytes, In (EvPush r d bytes) evs /\ e = entry_of d bytes.
@@ -185,9 +185,16 @@ Proof. intros (_ & _ & l & -> & _) St. now rewrite stored_app, St. Qed.
 
 Lemma same_key_entry_of bd d bytes : same_key bd d (entry_of d bytes) = true.
 Proof.
-  unfold same_key, entry_of. simpl. rewrite str_eqb_refl. destruct bd; simpl; auto.
+  unfold same_key, full_key, entry_of. simpl. rewrite str_eqb_refl. destruct bd; simpl; auto.
   - now rewrite str_eqb_refl, Z.eqb_refl.
   - apply Bool.eqb_reflx.
+  - now rewrite str_eqb_refl, Z.eqb_refl.
+Qed.
+
+Lemma push_dup_stored k st d : push_dup k st d = true -> stored k st d = true.
+Proof.
+  unfold push_dup, stored. intro E. apply existsb_exists in E as (e & I & P). apply existsb_exists.
+  exists e. split; auto. destruct k; auto. simpl in P. apply andb_true_iff in P as [_ P]. exact P.
 Qed.
 
 Lemma do_exists_spec tc fa s d s' r :
@@ -213,13 +220,14 @@ Proof.
   - intros [= <- <-]. split; [|split]; try discriminate.
     + split; [reflexivity|]. split; [simpl; lia|]. exists nil. split; [now rewrite app_nil_r | constructor].
     + intros _ E. subst fa. discriminate.
-  - destruct (stored (t_key tc) (s_store s) d) eqn:St; intros [= <- <-]; (split; [|split]);
+  - destruct (push_dup (t_key tc) (s_store s) d) eqn:St; intros [= <- <-]; (split; [|split]);
       try discriminate; auto.
     + split; [reflexivity|]. split; [simpl; lia|]. exists nil. split; [now rewrite app_nil_r | constructor].
+    + intros _. simpl. now apply push_dup_stored.
     + split; [reflexivity|]. split; [simpl; lia|]. exists [entry_of d bytes]. split; auto.
       constructor; [|constructor]. exists r, d, bytes. simpl; auto.
     + intros _. simpl. rewrite stored_app. unfold stored at 2. simpl.
-      change (mkEntry (d_mt d) (d_dg d) (d_sz d) bytes) with (entry_of d bytes).
+      change (mkEntry (d_mt d) (d_dg d) (d_sz d) bytes false) with (entry_of d bytes).
       rewrite same_key_entry_of. simpl. apply orb_true_r.
 Qed.
 
@@ -853,3 +861,64 @@ Section PackProofs.
     auto.
   Qed.
 End PackProofs.
+
+(* ------------------------------------------------------------------ *)
+(* 7. Go maps carry no order: permuting the annotations changes nothing *)
+(* ------------------------------------------------------------------ *)
+From Coq Require Import Sorting.Permutation.
+
+Lemma ann_get_perm k l l' :
+  NoDup (map fst l) -> Permutation l l' -> ann_get k l = ann_get k l'.
+Proof.
+  intros N P. induction P as [| [k1 v1] l l' P IH | [k1 v1] [k2 v2] l | l l' l'' P1 IH1 P2 IH2].
+  - reflexivity.
+  - simpl. destruct (str_eqb k k1); auto. apply IH. now inversion N.
+  - simpl. destruct (str_eqb k k2) eqn:E2; destruct (str_eqb k k1) eqn:E1; auto.
+    apply str_eqb_spec in E1, E2. subst. simpl in N. inversion N as [|? ? NI _]. elim NI. simpl. auto.
+  - rewrite IH1 by exact N. apply IH2.
+    eapply Permutation_NoDup; [|exact N]. now apply Permutation_map.
+Qed.
+
+Section PermProofs.
+  Variable marshal : manifest -> str.
+  Variable H : str -> str.
+  Hypothesis H_empty : H empty_json = empty_json_digest.
+  (* json.Marshal writes map keys in sorted order: the bytes do not depend on the order in which
+     the annotations are listed *)
+  Hypothesis marshal_perm : forall k c l sj a ann ann',
+      Permutation ann ann' -> marshal (mkManifest k c l sj a ann) = marshal (mkManifest k c l sj a ann').
+
+  Definition same_but_ann (o o' : opts) : Prop :=
+    o_subject o = o_subject o' /\ o_layers o = o_layers o' /\ o_config o = o_config o' /\
+    o_config_ann o = o_config_ann o'.
+
+  Lemma requested_manifest_perm f at_ o o' ann ann' :
+    same_but_ann o o' -> Permutation ann ann' ->
+    exists k c l sj a, requested_manifest H f at_ o ann = mkManifest k c l sj a ann /\
+                       requested_manifest H f at_ o' ann' = mkManifest k c l sj a ann'.
+  Proof.
+    intros (E1 & E2 & E3 & E4) P.
+    unfold requested_manifest, requested_config, invented_config. rewrite <- E1, <- E2, <- E3, <- E4.
+    destruct f; eexists _, _, _, _, _; split; reflexivity.
+  Qed.
+
+  Theorem deterministic_perm f at_ o o' v tc1 fa1 s1 now1 s1' d1 m1 tc2 fa2 s2 now2 s2' d2 m2 :
+    NoDup (map fst (o_ann o)) -> Permutation (o_ann o) (o_ann o') -> same_but_ann o o' ->
+    ann_get (created_key f) (o_ann o) = Some v ->
+    pack marshal H f tc1 fa1 s1 at_ o now1 = (s1', Ok d1 m1) ->
+    pack marshal H f tc2 fa2 s2 at_ o' now2 = (s2', Ok d2 m2) ->
+    d_dg d1 = d_dg d2 /\ d_sz d1 = d_sz d2 /\ d_mt d1 = d_mt d2 /\ d_at d1 = d_at d2 /\
+    d_extra d1 = d_extra d2 /\ Permutation (d_ann d1) (d_ann d2) /\
+    m_config m1 = m_config m2 /\ m_layers m1 = m_layers m2 /\ m_subject m1 = m_subject m2 /\ m_at m1 = m_at m2.
+  Proof.
+    intros N P S G P1 P2.
+    assert (G' : ann_get (created_key f) (o_ann o') = Some v) by (rewrite <- (ann_get_perm _ _ _ N P); exact G).
+    apply (ok_consistent marshal H H_empty) in P1 as (a1 & e1 & EC1 & -> & -> & _).
+    apply (ok_consistent marshal H H_empty) in P2 as (a2 & e2 & EC2 & -> & -> & _).
+    unfold ensure_created in EC1, EC2. rewrite G in EC1. rewrite G' in EC2.
+    destruct (rfc3339_ok v); [|discriminate]. injection EC1 as <-. injection EC2 as <-.
+    destruct (requested_manifest_perm f at_ o o' _ _ S P) as (k & c & l & sj & a & -> & ->).
+    unfold result_desc. cbn [m_kind m_ann m_config m_at d_dg d_sz d_mt d_at d_ann d_extra m_layers m_subject].
+    rewrite (marshal_perm k c l sj a _ _ P). repeat split; auto.
+  Qed.
+End PermProofs.
